@@ -19,6 +19,7 @@ EXPLANATION = (
     " the response type are forwarded; R5 factory.discover maps each response class to the client of its generation with port 9004/9005 and the "
     "response's host/id/serial(/name). Arrival timing is not decided."
     " Added later: match() is decided on witness datagrams in the vendor format (commas in the name, empty and non-ASCII names) propagated through the source by the checker's interpreter; the search loop's condition is evaluated for an empty and a non-empty response set while the counter runs."
+    ' Rounds 7-8: R2 also evaluates decode() on vendor-format and foreign witness datagrams (exact fields / DecodeError); R4 also: datagram_received keeps no state between datagrams.'
 )
 ASSUMPTIONS = ["vendor discovery formats: AT4 'IP,MAC,AirTouch4,ID' on UDP 49004 (reverse engineered), AT5 'IP,ConsoleID,AirTouch5,AirTouchID,Name' on UDP 49005 (protocol v1.2 p.13)"]
 FLOORS = {"C18.R1": 8, "C18.R2": 14, "C18.R3": 3, "C18.R4": 4, "C18.R5": 6}
@@ -205,7 +206,8 @@ def r2(ctx):
                     v = v.func.value
                 if isinstance(v, ast.Subscript):
                     got[k.arg] = ctx.repo.try_fold(m, v.slice)
-        ctx.check(got == s["idx"], R, f"{gen}:decode:field-positions", m, dec.node, f"fields from parts {s['idx']}", str(got))
+        # (a constructor call whose fields are not spelled as keyword = part[i] is decided by the witness datagrams below alone)
+        ctx.check(got == s["idx"] or not got, R, f"{gen}:decode:field-positions", m, dec.node, f"fields from parts {s['idx']}", str(got))
         lenient = [c for c in ast.walk(dec.node) if isinstance(c, ast.Call) and isinstance(c.func, ast.Attribute) and c.func.attr == "decode" and any(k.arg == "errors" for k in c.keywords)]
         ctx.check(not lenient, R, f"{gen}:decode:strict-text", m, (lenient[0] if lenient else dec.node), "text fields are decoded strictly: a datagram with invalid UTF-8 adds nothing (it must not become an entry that ends the search)", norm_text(lenient[0])[:100] if lenient else "")
         mt = m.get_class(f"{cls}DiscoveryDecoder").methods.get("match")
